@@ -14,5 +14,29 @@ CLAIMED = {
     },
 }
 
+CLAIMED['C14'] = {
+    'engines': 'ZX',
+    'technique': 'symbolic execution of the real compare_version / Timeframe code over version strings with symbolic digits (regex model), oracle = component-wise numeric order',
+    'text': 'For all version strings of the listed shapes (components x digits, every digit value) and each product, z3 shows that the verdict equals the '
+            'component-wise numeric order, is antisymmetric and transitive, and that the compatibility time frame takes numeric min/max.',
+    'note': 'Bounded by version shapes in props/c14.py; regex engine replaced by a backtracking model validated per path; leading zeros and non-numeric versions outside.',
+}
+CLAIMED['C16'] = {
+    'engines': 'ZX',
+    'technique': 'symbolic execution of Banner.parse / get_banner / Software.parse over strings and byte streams with symbolic characters (regex model), all paths per shape',
+    'text': 'For every banner line generated from the grammar within the length bounds (all printable characters), every arbitrary string of <=3..4 code points, '
+            'every header/banner stream of the listed shapes and chunkings, the solver shows acceptance, exact part recovery, round-trip stability, '
+            'sanitising, header separation and product/version extraction.',
+    'note': 'Bounded by shapes in props/c16.py META; socket replaced by scripted chunks; regex/bytearray/io models validated per path.',
+}
+CLAIMED['C09'] = {
+    'engines': 'ZX',
+    'technique': 'symbolic execution of the real parsers and of the whole audit() against a scripted network whose bytes are solver variables; exception classes leaving each stage compared with what call sites catch',
+    'text': 'For every byte string within the bounds at every stage (banner loop, packet reader, KEXINIT/PKM parsers, KEX reply, GEX group, and the real audit() with '
+            'arbitrary first-connection bytes or arbitrary probe replies) z3 explores all paths: only documented end states occur, loops consume input '
+            '(recv calls <= chunks+1), malformed handshakes give status 1 without report, probe misbehaviour leaves a complete report.',
+    'note': 'Bounded stream lengths (props/c09.py META); wall-clock replaced by progress bound + OS timeout contract; randrange/pow/CRC stubs as listed; rate-test phase in C19.',
+}
+
 NOT_APPLICABLE = {
 }
